@@ -13,6 +13,7 @@ STR_METHODS = {"startswith", "endswith", "lower", "upper", "strip", "split", "rs
 LIST_METHODS = {"append", "extend", "pop", "copy", "insert", "remove", "clear", "sort", "index", "count",
                 "popleft", "appendleft"}
 DICT_METHODS = {"get", "keys", "values", "items", "update", "pop", "copy", "setdefault", "clear", "popitem"}
+EXTERN_FIELDS = {"Thread": {"ident", "name", "daemon"}, "UUID": {"hex"}}
 FRAME_FIELDS = {"f_code", "f_lineno", "f_locals", "f_back", "f_globals", "co_filename", "co_name", "co_firstlineno"}
 
 
@@ -95,6 +96,8 @@ class CallMixin:
         ci = self.table.info.get(cid)
         if ci is None:
             # extern object classes (Lock, Future, Thread, Event, proto ...)
+            if attr in EXTERN_FIELDS.get(nm, ()):
+                return self.st.get_field(Val.r(obj), attr)
             return self.st.register(BoundMethod(BuiltinFn("%s.%s" % (nm, attr)), obj))
         if attr == "__dict__":
             return self.instance_dict(obj, ci, node)
